@@ -239,10 +239,10 @@ class ConvModel(object):
                     try:
                         sr = spikeglx.Reader(f, sort=False)
                         shape = tuple(sr.shape)
-                        got = np.array(sr._raw[0:sr.ns]) if f.endswith("cbin") else np.array(sr._raw[:, :])
                         shkey = sr.meta.get("NP2.4_shank")
                         typ = sr.type
                         sr.close()
+                        got = np2.read_raw(f, shape[1])
                     except Exception as e:
                         prob.append("shank %d: %s does not open: %s: %s" % (sh, os.path.basename(f), type(e).__name__, e))
                         continue
@@ -268,8 +268,8 @@ class ConvModel(object):
                 try:
                     sr = spikeglx.Reader(f, sort=False)
                     shape = tuple(sr.shape)
-                    got = np.array(sr._raw[0:sr.ns]) if f.endswith("cbin") else np.array(sr._raw[:, :])
                     sr.close()
+                    got = np2.read_raw(f, shape[1])
                     if shape != (nlf, data.shape[1]) or got.shape != shape or not np.array_equal(got[:, -1], data[::RATIO, -1]):
                         prob.append("lf file has shape %r, expected %r (or wrong sync)" % (shape, (nlf, data.shape[1])))
                 except Exception as e:
